@@ -130,9 +130,12 @@ func c13pool(kind string) map[string][]string {
 	kws := []string{}
 	for _, k := range c13keywords {
 		kws = append(kws, k, strings.ToLower(k), k[:1]+strings.ToLower(k[1:]))
+		if odd := strings.ToLower(k[:1]) + strings.NewReplacer("s", "\u017f", "i", "\u0131").Replace(strings.ToLower(k[1:])); odd != strings.ToLower(k) {
+			kws = append(kws, odd) // long s / dotless i: their upper case is the ASCII letter
+		}
 	}
 	return map[string][]string{
-		"word":    {"abc", "_x1", "été", "aЖ9", "ANDy", "nota", "e1", "E"},
+		"word":    {"abc", "_x1", "été", "aЖ9", "ANDy", "nota", "e1", "E", "li\u212ae", "a\ufffe", "o\u0280"},
 		"keyword": kws,
 		"integer": {"0", "12", "007"},
 		"float":   {"1.5", "0.25", "1e5", "2.5E-3", "3e+2", "1.5e10", "10.0"},
@@ -141,6 +144,35 @@ func c13pool(kind string) map[string][]string {
 		"comment": {"/* c */", "/**/", "/* a\n * b */", "/* 'x' */"},
 		"ws":      {" ", "\t ", "\n", "\r\n "},
 		"symbol":  {"<=", ">=", "<>", "!=", ">>", "<<", "<", ">", "=", "!", "+", "-", "*", "(", ")", ",", ".", "/", "%", "^", "[", "]", "$"},
+	}
+}
+
+// c13rare: lexemes that only a specific comparison, table index, magnitude or buffer length tells apart
+func c13rare(kind string) map[string][]string {
+	long := strings.Repeat("ab", 150)
+	digits := strings.Repeat("1234567890", 30)
+	if kind == "generic" {
+		return map[string][]string{
+			"word":    {"ондатра", "нет", "мир", "\u013da", "\u0663x", "\u0969", "\uff13a", "a\u0663", "\u010d", "x\u200dy", "\ufffdz", "a\ufffd", "\u01c5", "\u017f", "\u0131", "\u043c", "\u013c", long, "\uff0a", "\u040a"},
+			"integer": {"9223372036854775807", "9223372036854775808", "18446744073709551616", "123456789012345678901234567890", digits, "-9223372036854775809"},
+			"float":   {"0.000000000000000000000000000001", "123456789012345678901234567890.5", digits + "." + digits, "-0.0"},
+			"quoted":  {"'" + long + "'", "'\ufffd'", "'a\uffffb'", "'\U0001f60a'"},
+			"dquoted": {"\"" + long + "\"", "\"\uffff\""},
+			"comment": {"# \uffff x", "# " + long},
+			"ws":      {strings.Repeat(" ", 300), "\u0001\u001f"},
+			"symbol":  {},
+		}
+	}
+	return map[string][]string{
+		"word":    {"a\u0663", "e\u0663", "a\ufffd", "x\u200d", long, "\u00e9\u017f", "_\uff13", "a\u043e"},
+		"keyword": {},
+		"integer": {"9223372036854775807", "9223372036854775808", "18446744073709551616", digits},
+		"float":   {"1e400", "1e-400", "12345678901234567890e5", digits + "." + digits, "0.000000000000000000000000000001", "1.5E+300"},
+		"quoted":  {"'" + long + "'", "'\ufffd'", "'a\uffffb'", "'" + strings.Repeat("''", 140) + "'"},
+		"dquoted": {"\"" + long + "\"", "\"\uffff\""},
+		"comment": {"/* \uffff */", "/*" + long + "*/"},
+		"ws":      {strings.Repeat(" ", 300)},
+		"symbol":  {"\u0663", "\uff14", "\u043c", "\u043e", "\u013d", "\u013c", "\u0121", "\u200d", "\ufffd", "\u0131", "\u212a"},
 	}
 }
 
@@ -310,6 +342,33 @@ func genC13(g *Gen) {
 					}
 				}
 			}
+		}
+		// (1b) every rare lexeme before and after every lexeme of the pools
+		rare := c13rare(kind)
+		var all, rares []lexeme
+		for _, cls := range c13classes {
+			for _, p := range pool[cls] {
+				all = append(all, lexeme{cls, p})
+			}
+			for _, p := range rare[cls] {
+				all = append(all, lexeme{cls, p})
+				rares = append(rares, lexeme{cls, p})
+			}
+		}
+		for _, a := range rares {
+			c13emit(g, "rare lexemes x all lexemes:"+kind, kind, c13join(kind, []lexeme{a}, nil))
+			for _, b := range all {
+				c13emit(g, "rare lexemes x all lexemes:"+kind, kind, c13join(kind, []lexeme{a, b}, nil))
+				c13emit(g, "rare lexemes x all lexemes:"+kind, kind, c13join(kind, []lexeme{b, a}, nil))
+			}
+		}
+		// long sequences
+		for i := 0; i < g.Pick(6, 40); i++ {
+			var seq []lexeme
+			for k := []int{64, 129, 257, 600}[i%4]; k > 0; k-- {
+				seq = append(seq, all[r.Intn(len(all))])
+			}
+			c13emit(g, "long sequences:"+kind, kind, c13join(kind, seq, r))
 		}
 		// (2) random sequences of any length with pool and random payloads
 		n := g.Pick(3000, 80000)
